@@ -154,6 +154,100 @@ func c08Op(rng *rand.Rand, g int, uniq string) []string {
 	return []string{"GET", k("s")}
 }
 
+// c08OpExt: the second command mix (read-modify-write commands of every family that the first mix does not have).
+func c08OpExt(rng *rand.Rand, g int, uniq string) []string {
+	k := func(n string) string { return fmt.Sprintf("g%d%s", g, n) }
+	switch rng.Intn(44) {
+	case 0:
+		return []string{"SETRANGE", k("s"), strconv.Itoa(rng.Intn(4)), uniq}
+	case 1:
+		return []string{"SETBIT", k("a"), strconv.Itoa(rng.Intn(24)), "1"}
+	case 2:
+		return []string{"BITFIELD", k("a"), "INCRBY", "u8", "0", "1"}
+	case 3:
+		return []string{"BITFIELD", k("a"), "OVERFLOW", "SAT", "INCRBY", "u4", "8", "3"}
+	case 4:
+		return []string{"GETRANGE", k("a"), "0", "-1"}
+	case 5:
+		return []string{"INCRBYFLOAT", k("c"), "1"}
+	case 6:
+		return []string{"DECR", k("c")}
+	case 7:
+		return []string{"HINCRBYFLOAT", k("h"), "n", "1"}
+	case 8:
+		return []string{"HSETNX", k("h"), "f", uniq}
+	case 9:
+		return []string{"HMGET", k("h"), "f", "n"}
+	case 10:
+		return []string{"HSET", k("h"), "f", uniq, "n", "7"}
+	case 11:
+		return []string{"LSET", k("l"), "0", uniq}
+	case 12:
+		return []string{"LTRIM", k("l"), "0", "2"}
+	case 13:
+		return []string{"LMPOP", "2", k("l"), k("m"), "LEFT"}
+	case 14:
+		return []string{"RPOPLPUSH", k("l"), k("m")}
+	case 15:
+		return []string{"LPUSHX", k("l"), uniq}
+	case 16:
+		return []string{"RPUSH", k("l"), uniq, uniq + "b"}
+	case 17:
+		return []string{"LINSERT", k("l"), "BEFORE", "pv", uniq}
+	case 18:
+		return []string{"RPUSH", k("l"), "pv"}
+	case 19:
+		return []string{"LREM", k("l"), "0", "pv"}
+	case 20:
+		return []string{"LPOP", k("l"), "2"}
+	case 21:
+		return []string{"LMOVE", k("l"), k("l"), "LEFT", "RIGHT"}
+	case 22:
+		return []string{"SINTERSTORE", k("v"), k("t"), k("v")}
+	case 23:
+		return []string{"SADD", k("t"), "1.0", "2.0", uniq}
+	case 24:
+		return []string{"SADD", k("v"), "2.0", "3.0"}
+	case 25:
+		return []string{"SREM", k("t"), "1.0", "2.0"}
+	case 26:
+		return []string{"SINTER", k("t"), k("v")}
+	case 27:
+		return []string{"SINTERCARD", "2", k("t"), k("v")}
+	case 28:
+		return []string{"SMISMEMBER", k("t"), "1.0", "2.0"}
+	case 29:
+		return []string{"SORT", k("l"), "ALPHA", "STORE", k("m")}
+	case 30:
+		return []string{"GETDEL", k("s")}
+	case 31:
+		return []string{"GETEX", k("s")}
+	case 32:
+		return []string{"SET", k("s"), uniq, "XX"}
+	case 33:
+		return []string{"SET", k("s"), uniq, "NX"}
+	case 34:
+		return []string{"SET", k("s"), uniq, "GET"}
+	case 35:
+		return []string{"RENAMENX", k("s"), k("u")}
+	case 36:
+		return []string{"COPY", k("u"), k("s")}
+	case 37:
+		return []string{"UNLINK", k("u")}
+	case 38:
+		return []string{"STRLEN", k("s")}
+	case 39:
+		return []string{"SET", k("u"), uniq}
+	case 40:
+		return []string{"LRANGE", k("m"), "0", "-1"}
+	case 41:
+		return []string{"LRANGE", k("l"), "0", "-1"}
+	case 42:
+		return []string{"SMEMBERS", k("v")}
+	}
+	return []string{"HGETALL", k("h")}
+}
+
 func groupKeys(g int) []string {
 	var out []string
 	for _, n := range []string{"c", "a", "s", "u", "l", "m", "h", "t", "v"} {
@@ -173,10 +267,15 @@ func c08History(r *verdict.Run, e *emu, rng *rand.Rand, st *linStats, tag string
 	ngroups := 1 + rng.Intn(3)
 	type plan struct{ ops []linIn }
 	plans := make([]plan, nconn)
+	ext := rng.Intn(2) == 0 // which command mix this history uses
 	for c := 0; c < nconn; c++ {
 		for i := 0; i < nops; i++ {
 			g := rng.Intn(ngroups)
-			plans[c].ops = append(plans[c].ops, linIn{g, c08Op(rng, g, fmt.Sprintf("%d.%d", c, i))})
+			gen := c08Op
+			if ext {
+				gen = c08OpExt
+			}
+			plans[c].ops = append(plans[c].ops, linIn{g, gen(rng, g, fmt.Sprintf("%d.%d", c, i))})
 		}
 	}
 	var mu sync.Mutex
